@@ -1479,8 +1479,11 @@ func (d *Data) storeAndUpdate(ctx *datastore.VersionedCtx, keyStr string, newDat
 		for field := range newData {
 			mdb.fields[field]++
 			if strings.HasSuffix(field, "_time") {
-				rootField := field[:len(field)-5]
-				mdb.fieldTimes[rootField] = newData[field].(string)
+				// a client-supplied *_time value need not be a string (updateJSON only logs that)
+				if timestamp, isString := newData[field].(string); isString {
+					rootField := field[:len(field)-5]
+					mdb.fieldTimes[rootField] = timestamp
+				}
 			}
 		}
 		mdb.addBodyID(bodyid)
